@@ -125,34 +125,32 @@ def _bitpack(vals, width):
     return acc.to_bytes(len(vals) * width // 8, "little")
 
 
-def hybrid(vals, width, style="mixed"):
-    """RLE / bit-packed hybrid (Encodings.md): a sequence of runs, each
-       rle-run        = varint(count << 1)            value in ceil(width/8) bytes LE
-       bit-packed-run = varint((groups << 1) | 1)     groups*8 values bit-packed LSB first
-    style: 'rle' (one rle run per maximal run of equal values), 'bp' (one bit-packed run, padded
-    with zeros to a multiple of 8), 'mixed' (rle for runs >= 8, bit-packed groups otherwise;
-    a bit-packed run that is not the last one holds a multiple of 8 real values)."""
+LEVEL_LOG = None        # when a list: every hybrid stream written is logged as (width, runs, bytes) for the cross-check
+                        # against the proved Coq spec encoder Codec/Hybrid.v hyb_enc (pqref command hyb_enc)
+
+
+def hybrid_runs(vals, width, style="mixed"):
+    """RLE / bit-packed hybrid (Encodings.md) as a list of runs  ["rle", count, value] | ["bp", [values]]
+    (a bit-packed run is padded with zeros to a multiple of 8 values when serialised).
+    style: 'rle' (one rle run per maximal run of equal values), 'bp' (one bit-packed run), 'mixed' (rle for runs >= 8,
+    bit-packed groups otherwise; a bit-packed run that is not the last one holds a multiple of 8 real values)."""
     n = len(vals)
-    out = bytearray()
-    vb = (width + 7) // 8
     if n == 0:
-        return b""
+        return []
     if width == 0:
-        return uleb(n << 1)             # run of n zeros, zero value bytes
+        return [["rle", n, 0]]          # run of n zeros, zero value bytes
     if style == "bp":
-        g = (n + 7) // 8
-        out += uleb((g << 1) | 1) + _bitpack(list(vals) + [0] * (g * 8 - n), width)
-        return bytes(out)
+        return [["bp", list(vals)]]
+    runs = []
     if style == "rle":
         i = 0
         while i < n:
             j = i
             while j < n and vals[j] == vals[i]:
                 j += 1
-            out += uleb((j - i) << 1) + int(vals[i]).to_bytes(vb, "little")
+            runs.append(["rle", j - i, int(vals[i])])
             i = j
-        return bytes(out)
-    # mixed
+        return runs
     i = 0
     pend = []
     while i < n:
@@ -162,18 +160,39 @@ def hybrid(vals, width, style="mixed"):
         run = j - i
         if run >= 8 and len(pend) % 8 == 0:
             if pend:
-                out += uleb(((len(pend) // 8) << 1) | 1) + _bitpack(pend, width)
+                runs.append(["bp", pend])
                 pend = []
-            out += uleb(run << 1) + int(vals[i]).to_bytes(vb, "little")
+            runs.append(["rle", run, int(vals[i])])
             i = j
         else:
             take = min(run, 8 - len(pend) % 8) if run >= 8 else run
-            pend += list(vals[i:i + take])
+            pend = pend + [int(x) for x in vals[i:i + take]]
             i += take
     if pend:
-        g = (len(pend) + 7) // 8
-        out += uleb((g << 1) | 1) + _bitpack(pend + [0] * (g * 8 - len(pend)), width)
+        runs.append(["bp", pend])
+    return runs
+
+
+def hybrid_bytes(runs, width):
+    """rle-run = varint(count << 1) value in ceil(width/8) bytes LE; bit-packed-run = varint((groups << 1) | 1) groups*8
+    values bit-packed LSB first"""
+    out = bytearray()
+    vb = (width + 7) // 8
+    for r in runs:
+        if r[0] == "rle":
+            out += uleb(r[1] << 1) + int(r[2]).to_bytes(vb, "little")
+        else:
+            g = (len(r[1]) + 7) // 8
+            out += uleb((g << 1) | 1) + _bitpack(list(r[1]) + [0] * (g * 8 - len(r[1])), width)
     return bytes(out)
+
+
+def hybrid(vals, width, style="mixed"):
+    runs = hybrid_runs(vals, width, style)
+    b = hybrid_bytes(runs, width)
+    if LEVEL_LOG is not None and runs:
+        LEVEL_LOG.append((width, runs, b))
+    return b
 
 
 PTYPES = {  # name -> (parquet Type id, converted type or None)
